@@ -352,3 +352,83 @@ def units_C09(tier, seed):
             U += unit(f'c09_layer_{n}_{m}_{t}', H, f'layer_h<{n},{m},{t}>()', 'INT', sites=[1, 2, 3, 4], diff=(n == 2),
                       flavours=('rel', 'dbg') if n == 3 else ('rel',))
     return U
+
+
+# ------------------------------------------------------------------------------------------------ C19 / C17 / C05
+INFO['C19'] = {
+    'bounds': 'nd_map<nd_size<D>>: D=1..3 with extents 0..3 (quick: 0..2 for D=3), D=4 with 0..2, D=5 with 0..1 (thorough); symbolic '
+              'probe tuple over all 64-bit values: counted exactly once iff inside the box; invocation total == product of extents; '
+              'closures (std::function copies) released',
+    'outside': 'larger extents (loop forks once per iteration; bound B is an assumption of the harness)', 'cuts': 'none', 'assumptions': [],
+}
+INFO['C17'] = {
+    'bounds': 'make_parameter_pack_for at depth 1..10 over nested affine layers (one shared configuration type), all real '
+              'configuration values (REAL mode), read-back layer by layer and behavioural tie through the lookup; two nested '
+              'backup layers over the probe (N,M sampled), all configuration bit patterns; depth-5 stack '
+              'affine<linear<clamp<strided<array>>>>: every layer read back, field rebuilt from reported configurations + storage, '
+              'equal at a symbolic lattice coordinate, 2x2 storage with symbolic contents',
+    'outside': 'stacks other than the listed ones; storage larger than 2x2', 'cuts': 'none', 'assumptions': [],
+}
+INFO['C05'] = {
+    'bounds': 'all ordered pairs of {row-major, Morton pdep, Morton portable, Hilbert}, N=1..3 (Hilbert N=2), every extent vector with '
+              'extents 1..2 (quick) / 1..3 for N<=2 and 1..2 for N=3 (thorough), storage float1/double3 with all bit patterns, symbolic '
+              'probe coordinate: same configuration, same value, source unchanged, own storage, round trip, independence of writes, no leak; '
+              'whole-stack affine<I1<L1<array>>> -> affine<I2<L2<array>>> for I in {nearest, linear}: matrix and layout-level contents',
+    'outside': 'extents above the bound, N=4; CUDA device arrays: cuda_runtime.h is not in the image and no shim was built (CUDA conversion not covered)',
+    'cuts': 'none (nd_map std::function closures, heap allocation and indirect calls are executed as they are)', 'assumptions': [],
+}
+
+
+def units_C19(tier, seed):
+    th = tier == 'thorough'
+    U = []
+    for d, b in ((1, 3), (2, 3), (3, 3 if th else 2)) + (((4, 2), (5, 1)) if th else ((4, 1),)):
+        U += unit(f'c19_ndmap_{d}_{b}', 'c19_ndmap.cpp', f'ndmap_h<{d},{b}>()', sites=[1, 2, 3],
+                  flavours=('rel', 'dbg', 'san') if d == 2 else ('rel',), diff=(d <= 2), weight=(b + 1) ** d, timeout=1800,
+                  cfg={'max_paths': 20000})
+    return U
+
+
+def units_C17(tier, seed):
+    th = tier == 'thorough'
+    U = []
+    H = 'c17_config.cpp'
+    for k in range(0, 10):
+        U += unit(f'c17_helper_{k + 1}', H, f'helper_h<{k}>()', 'INT', sites=[1, 2], diff=(k == 3), flavours=('rel', 'dbg') if k in (2, 9) else ('rel',))
+    for t in ('float', 'double'):
+        U += unit(f'c17_stack5_{t}', H, f'stack5_h<{t}>()', sites=[1, 2, 3, 4, 5, 6, 7], flavours=('rel', 'dbg'), diff=True, weight=10)
+    for n, m in ((1, 1), (2, 3), (3, 2)) + (((4, 4), (1, 4)) if th else ()):
+        U += unit(f'c17_backups_{n}_{m}', H, f'backups_h<{n},{m}>()', sites=[1], diff=(n == 2))
+    return U
+
+
+LAYNAME = {0: 'rowmajor', 1: 'mortonpdep', 2: 'mortonport', 3: 'hilbert'}
+
+
+def units_C05(tier, seed):
+    th = tier == 'thorough'
+    U = []
+    H = 'c05_convert.cpp'
+    for a in (0, 1, 2, 3):
+        for b in (0, 1, 2, 3):
+            if a == b:
+                continue
+            for n in (1, 2, 3):
+                if 3 in (a, b) and n != 2:
+                    continue
+                if not th and n != 2 and (a + b + n) % 2:
+                    continue
+                v = 'f1' if (a + b + n) % 2 else 'd3'
+                bnd = 3 if (th and n <= 2) else 2
+                ex = ['-mbmi2'] if 1 in (a, b) else []
+                U += unit(f'c05_conv_{LAYNAME[a]}_{LAYNAME[b]}_{n}_{v}', H, f'conv_h<{a},{b},{n},{VEC[v]},{bnd}>()', extra=ex,
+                          sites=[1, 2, 3, 4, 5, 6, 7], flavours=('rel', 'san') if (n == 2 and a == 0) else ('rel',),
+                          diff=(n == 2 and a == 0), weight=bnd ** n * 10, timeout=1800)
+    for i1, l1, i2, l2 in ((0, 0, 1, 2), (1, 0, 0, 1), (1, 2, 1, 0), (0, 1, 0, 0), (1, 0, 1, 3), (0, 3, 1, 0)):
+        for n in ((2,) if not th else (1, 2, 3)):
+            if 3 in (l1, l2) and n != 2:
+                continue
+            ex = ['-mbmi2'] if 1 in (l1, l2) else []
+            U += unit(f'c05_stack_{i1}{LAYNAME[l1]}_{i2}{LAYNAME[l2]}_{n}', H, f'stack_h<{i1},{l1},{i2},{l2},{n},{VEC["f2"]},2>()',
+                      extra=ex, sites=[1, 2, 3], diff=(l1 == 0 and n == 2), weight=40)
+    return U
